@@ -147,6 +147,12 @@ def _cop(case):
     return f"(Within {cq([0, 1])} {cq([0, 1])})"
 
 
+def _fraction_pow_quirk(case):
+    """Fraction.__pow__(frac, H) falls back to float(frac) ** H before H.__rpow__ is ever consulted:
+    the result is an inexact float (Python's Fraction, not dyce) - outside the exact-rational model"""
+    return case.get("op") == "pow" and "s" in case.get("l", {}) and case["l"]["s"][1] != 1
+
+
 def _typed_pool_issue(case):
     """bitwise operators distinguish Fraction(2) from 2; sums of Fraction dice can be integral-valued
     Fractions, which the value-level model cannot tell apart: outside the model's domain"""
@@ -160,7 +166,7 @@ def _typed_pool_issue(case):
 
 
 def coq_check(case, r):
-    if _typed_pool_issue(case):
+    if _typed_pool_issue(case) or _fraction_pow_quirk(case):
         return None
     if "ok" in r:
         try:
@@ -253,7 +259,7 @@ def _flat(x):
 
 def oracle(case):
     try:
-        if _typed_pool_issue(case):
+        if _typed_pool_issue(case) or _fraction_pow_quirk(case):
             return None
         if case["kind"] == "bin":
             op = case["op"]
